@@ -86,7 +86,12 @@ def check(case, mode):
             "parsed-circuit-disagrees-with-text-under-override",
             f"circuit (evaluated under the overrides): {show(m_c)}\n{d_c}\nreference: {show(m_ref)}\n{d_ref}\n--- overrides {env}\n--- program:\n{text}",
         )
-    st_, f = guard(fill_in_let, c, dict(env) if env else None, what="fill_in_let")
+    env_obj = dict(env) if env else None
+    st_, f = guard(fill_in_let, c, env_obj, what="fill_in_let")
+    if env_obj is not None and (env_obj != env or list(env_obj) != list(env)):
+        # the caller's dictionary is an input too: what the pass writes into it becomes an
+        # override of the NEXT program it is used for
+        raise Violation("override-dict-modified", f"passed {env}, afterwards {env_obj}\n--- program:\n{text}")
     if st_ == "err":
         raise Violation("rejected-valid-program", f"{f}\n--- overrides {env}\n--- program:\n{text}")
     left = extract.find_objects(f, lambda x: isinstance(x, Constant))
